@@ -110,6 +110,14 @@ T('c19-twin-expdecay-max', 'C19', 'max(step, 1) instead of the zero branch',
 T('c19-twin-expdecay-commute', 'C19', 'min(cap, 1 - 1/step)',
   (HP, "        return min(1 - (1 / step), min_value)", "        return min(min_value, 1 - 1 / step)"))
 
+M('c06-isclose-abs-tol-only', 'C06', 'FLT-INT', 'integrality test with rel_tol=0 and an absolute tolerance below one ulp of a two-digit count',
+  (AS, "if not math.isclose(grad_workers, round(grad_workers)):", "if not math.isclose(grad_workers, round(grad_workers), rel_tol=0.0, abs_tol=1e-15):"))
+M('c06-isclose-rel-tol-tiny', 'C06', 'FLT-INT', 'relative tolerance below the rounding error of the product',
+  (AS, "if not math.isclose(grad_workers, round(grad_workers)):", "if not math.isclose(grad_workers, round(grad_workers), rel_tol=1e-17):"))
+T('c06-twin-isclose-explicit-tol', 'C06', 'explicit tolerances that cover the rounding error',
+  (AS, "if not math.isclose(grad_workers, round(grad_workers)):", "if not math.isclose(grad_workers, round(grad_workers), rel_tol=1e-12, abs_tol=0.0):"))
+T('c06-twin-isclose-abs-tol-wide', 'C06', 'absolute tolerance 1e-6 with rel_tol=0',
+  (AS, "if not math.isclose(grad_workers, round(grad_workers)):", "if not math.isclose(grad_workers, round(grad_workers), rel_tol=0.0, abs_tol=1e-6):"))
 # ---------------------------------------------------------------- C05
 M('c05-gate-plus-one', 'C05', 'AFF-GATE', '(steps+1) % inv_update_steps',
   (BP, "        if self.steps % self.inv_update_steps == 0:", "        if (self.steps + 1) % self.inv_update_steps == 0:"))
